@@ -1,4 +1,7 @@
-"""C10 — cropping and zero-padding are exact, centred and mutually inverse."""
+"""C10 — cropping and zero-padding are exact, centred and mutually inverse.
+
+Helpers: props/c10_modules.py (k-space modules: histories, options, key plumbing, exact module correspondence),
+props/c10_prims.py (remaining options / argument forms / dtypes / layouts of the primitives)."""
 from __future__ import annotations
 
 import itertools
@@ -16,32 +19,64 @@ EXTRA_LEAN_MODULES = ["DirectVerif.Lemmas.TensorLiftC10",   # n-D corollaries (l
                       "DirectVerif.Lemmas.C10Kspace",      # k-space crop/pad == image crop/pad over the C01 plans (abstract backend, 1-D, 2 axes)
                       "DirectVerif.Lemmas.C10KspaceDft"]   # … instantiated with the concrete DFT of C01 (Mathlib ZMod.dft)
 PENDING_FINDINGS: list[str] = ["cropkspace-crop-form-5d", "random-crop-sigma-singleton-list", "bbox-dtype-bool",
-                               "crop-to-largest-centring-ceil"]
+                               "crop-to-largest-centring-ceil", "bbox-utils-twin-unrepaired"]
 MANIFEST = {
     "text": "Lean 4 theorems over all sizes/parities: centre crop = central window at offset floor((n-s)/2); pad places data at "
-            "floor((N-n)/2); pad followed by centre crop is the identity; F.pad pair order for any number of axes; bbox window "
-            "specification. Tied to the code by translated arithmetic (bridge lemmas closed by omega) and exact differential "
-            "correspondence on labelled tensors.",
-    "note": "Trusted: Lean kernel (+propext, Classical.choice, Quot.sound), the AST translator, torch slicing/F.pad semantics "
-            "(as encoded by slice/fPad; the row-major per-axis lifting is proved, Lemmas/TensorLift.lean). k-space crop/pad equivalence is checked on the "
-            "implementation under FFT rounding tolerance, not proved.",
-    "technique": "Lean 4 proof (omega/list induction) + AST translation bridge + differential correspondence",
+            "floor((N-n)/2); pad followed by centre crop is the identity (1-D, one axis and two axes of n-D tensors); F.pad pair "
+            "order for any number of axes; bbox window specification for every box; crop_to_largest window (ceil convention, "
+            "violation witness for odd differences). The k-space transforms are plans regenerated from the source and interpreted "
+            "over the C01 fft2/ifft2 plans: CropKspace = fft2 . crop . ifft2 and PadKspace = fft2 . view_as_real . pad . "
+            "view_as_complex . ifft2 are proved equivalent to cropping/padding the backprojected image for every lawful backend and "
+            "all 8 flag combinations, CropKspace(PadKspace k) = k on the k-space itself, and all of it without hypotheses for the "
+            "concrete DFT (Mathlib ZMod.dft) on one axis. Key plumbing (which sample key is read/written, helper functions "
+            "followed through call-site bindings and defaults), absence of instance/class/module state writes, absence of in-place "
+            "operations on inputs, resolution of every primitive reference to the modelled module, and the crop-shape rule for the "
+            "three argument forms of CropKspace are translated tables/kernels with decided predicates; history independence of "
+            "stateless modules and the frame property (other k-space key untouched) are proved for the definitions the driver "
+            "runs. Tied to the code by translated arithmetic (bridge lemmas closed by omega/decide) and exact differential "
+            "correspondence on labelled tensors, including the module ops with an exact operator pair (flip).",
+    "note": "Trusted: Lean kernel (+propext, Classical.choice, Quot.sound), the AST translator and table extractors, torch slicing/"
+            "F.pad/flip semantics as encoded by slice/fPad/reverse (the row-major per-axis lifting is proved, Lemmas/TensorLift.lean). "
+            "torch.fft enters only through C01's Lawful backend hypotheses (inverse pair; discharged for the concrete 1-D DFT); the "
+            "n-D k-space statements with FFT operators are additionally checked on the implementation under tolerance. The "
+            "view_as_complex/view_as_real pair is modelled as a regrouping of the trailing axis (pad acts on the axes before it). "
+            "RescaleKspace's interpolation and PadCoilDimensionModule are covered by tables and history/key oracles only. "
+            "Partial: crop-shape agreement between string and tuple crops is proved only outside (5-D, 2 entries) "
+            "(crop_shape_string_partial; finding cropkspace-crop-form-5d); crop_to_largest centring only for even differences "
+            "(finding crop-to-largest-centring-ceil); dtype preservation is an oracle check (finding bbox-dtype-bool).",
+    "technique": "Lean 4 proof (omega/list induction/plan interpretation over abstract operators) + AST translation bridge and "
+                 "decided structural tables + differential correspondence + history/option oracles on the real modules",
 }
 TRUSTED = [
     "Lean 4.33 kernel; axioms ⊆ {propext, Classical.choice, Quot.sound}",
-    "harness/translate (Python AST -> Lean) for center_crop / complex_center_crop / pad_tensor arithmetic",
+    "harness/translate (Python AST -> Lean): arithmetic kernels of center_crop / complex_center_crop / pad_tensor / crop_to_bbox / "
+    "crop_to_largest; recipes/c10_tables.py: k-space data-flow plans with key plumbing (nested functions and private helpers "
+    "followed through call-site bindings and parameter defaults), state-write / sample-access / in-place / caller tables, "
+    "CropKspace crop-shape rule",
     "Tensor.alongAxis (row-major lifting of 1-D list functions to one axis) is proved functorial (Lemmas/TensorLift.lean: "
-    "alongAxis_comp/_id_of/_cancel/_fibre) for the very definition the driver runs; the n-D corollaries are obligations of this check",
-    "torch indexing / F.pad index semantics as encoded by slice / fPad",
-    "crop_to_bbox arithmetic is hand-modelled (numpy vector code is not translated); tied by correspondence only",
+    "alongAxis_comp/_id_of/_cancel/_fibre, commutation of gathers) for the very definition the driver runs; the n-D corollaries "
+    "(one and two axes) are obligations of this check",
+    "torch indexing / F.pad / flip index semantics as encoded by slice / fPad / List.reverse",
+    "C01's model of fft2 / ifft2 (plans regenerated by C01's translator, imported read-only) and its Lawful-backend laws; "
+    "Mathlib's ZMod.dft for the hypothesis-free 1-D statements",
+    "view_as_complex / view_as_real modelled as identity on tensors with a trailing axis of size 2 (pad_tensor then acts on the "
+    "axes before it); validated by the exact correspondence of the `padk` op",
+    "numpy's RandomState stream is reproduced (not modelled) to predict the corner a seeded complex_random_crop draws",
 ]
 ASSUMPTIONS = [
-    "tensors hold integer labels (arange) so equality is exact",
-    "k-space crop/pad equivalence to image-space crop/pad is checked on the implementation under 1e-4 tolerance (FFT rounding)",
+    "tensors hold integer (or half-/quarter-integer) labels so equality is exact in every float dtype used",
+    "module correspondence uses the exact operator pair flip/flip (an involution) as forward/backward operator; with the FFT "
+    "pairs (default, uncentered, ortho) the reference semantics are compared under 1e-4 relative tolerance (FFT rounding), "
+    "persistent-vs-fresh instance comparisons are bit-identical for every operator pair",
+    "a (z, x, y) pad target / 3-element crop applied to 2-D data and one gaussian sigma per *resolved* crop entry are outside "
+    "the pinned-down semantics (only history independence, key plumbing and aliasing are checked there)",
 ]
-RULE = ("arange-labelled tensors; every axis length from {1..9}; crop/pad targets smaller/equal/larger with odd and even "
-        "differences; bboxes with coordinates -5..+15. non-trivial = some axis of length >= 2 and (for pad/crop) an odd size "
-        "difference on at least one axis or a bbox leaving the tensor; distinct = distinct protocol line")
+RULE = ("arange-labelled tensors; every axis length from {1..9}; ranks 1..6; crop/pad targets smaller/equal/larger with odd and even "
+        "differences; bboxes with coordinates -5..+15; memory layouts contiguous/transposed/strided/sliced/permuted; targets as "
+        "tuple/list/torch.Size/ndarray/tensor; dtypes float16/32/64, int16/64, uint8, complex64, bool; module histories of 1..5 "
+        "samples of mixed rank (4-D/5-D), slice counts, shapes and key sets on persistent instances, every constructor option. "
+        "non-trivial = some axis of length >= 2 and (for pad/crop) an odd size difference on at least one axis or a bbox leaving "
+        "the tensor, (for module histories) at least two calls on the same instance; distinct = distinct protocol line / spec")
 
 
 def _arange(shape):
@@ -390,6 +425,14 @@ def replay(rep: dict) -> bool:
     if op == "primitive":
         from props.c10_prims import replay_prims
         return replay_prims(rep)
+    if op == "reachable_copy":
+        import importlib
+        f = getattr(importlib.import_module(rep["module"]), rep["function"])
+        x = _arange(rep["shape"])
+        try:
+            return f(x, rep["bbox"]).tolist() != rep["expected"]
+        except Exception:  # noqa: BLE001
+            return True
     if op == "pad_then_center_crop":
         x = _arange(rep["shape"])
         back = T.center_crop(T.pad_tensor(x, tuple(rep["target"])), tuple(rep["shape"]))
@@ -415,3 +458,38 @@ def replay(rep: dict) -> bool:
         x = _arange(rep["shape"])
         return T.pad_tensor(x, tuple(rep["target"])).tolist() != rep["expected"]
     return True
+
+
+def search(ctx: Ctx, dis, lean):
+    """Failing-input search for obligations that no oracle case explains: when a reference to a primitive no longer
+    resolves to the modelled module (`primitive_callers_ok`), exercise the function *as the caller reaches it*."""
+    import importlib
+
+    from direct.data import bbox as home
+
+    for modname in ("direct.data.transforms", "direct.engine", "direct.data.mri_transforms", "direct.nn.mri_models"):
+        try:
+            mod = importlib.import_module(modname)
+        except Exception:  # noqa: BLE001 - engines need optional packages; not this property's concern
+            continue
+        for fname in ("crop_to_bbox", "crop_to_largest"):
+            f = getattr(mod, fname, None)
+            if f is None or f is getattr(home, fname):
+                continue
+            for shape, bbox in (([5, 2], [13, 3, 2, 5]), ([4], [-6, 3]), ([3, 3], [1, 5, 2, 2]), ([4, 4], [-1, -1, 3, 3])):
+                x = _arange(shape)
+                ctx.count(("reach", modname, fname, tuple(bbox)), True, bucket="search/reachable-copy")
+                exp = _bbox_ref(x.numpy(), bbox, 0)
+                try:
+                    got = f(x, bbox) if fname == "crop_to_bbox" else None
+                    ok = got is None or (tuple(got.shape) == exp.shape and np.array_equal(got.numpy(), exp))
+                    obs = None if got is None else got.tolist()
+                except Exception as e:  # noqa: BLE001
+                    ok, obs = False, f"raises {err_name(e)}: {e}"[:200]
+                if not ok:
+                    yield Violation("caller-reaches-unmodelled-copy",
+                                    f"{modname}.{fname} is {f.__module__}.{fname}, not the modelled {home.__name__}.{fname}, and "
+                                    f"violates the bounding-box contract",
+                                    {"op": "reachable_copy", "module": modname, "function": fname, "shape": shape, "bbox": bbox,
+                                     "expected": exp.tolist(), "observed": obs})
+                    break
